@@ -34,6 +34,11 @@ def _fq(name, defs, to, weight, kf, checks):
 def queries(tier):
     q = tier == "quick"
     qs = [fq("dict-encode", {"API": 0}), fq("dict-decode", {"API": 1}), fq("dict-build-live-object", {"API": 2})]
+    x = fq("dict-rebuild-grow-live-object", {"API": 8})
+    spec = {"realloc": 150, "qsort": 20, "varintDictBuild": 20, "varintDictFind": 8, "binarySearch": 8, "memcpy": 150}
+    x.extra = ["--max-field-sensitivity-array-size", "256"]   # literal rebuild set: let symex constant-fold the sort
+    x.unwind_fn = dict(list(spec.items()) + [(k, v) for k, v in x.unwind_fn.items() if k not in spec])  # specific keys first
+    qs.append(x)
     for thr in ((95,) if q else (90, 95, 99)):
         qs.append(fq("pfor-encode-t%d" % thr, {"API": 3, "THR": thr}))
     for f in ((0, 2, 3) if q else (0, 1, 2, 3, 5)):
